@@ -8,7 +8,7 @@ from concurrent.futures import ThreadPoolExecutor
 
 from . import build, tlc
 
-FN = {1: "strerror_s", 2: "asctime_s", 3: "ctime_s", 4: "getenv_s", 5: "gmtime_s", 6: "localtime_s", 7: "gets_s"}
+FN = {1: "strerror_s", 2: "asctime_s", 3: "ctime_s", 4: "getenv_s", 5: "gmtime_s", 6: "localtime_s", 7: "gets_s", 8: "fopen_s", 9: "freopen_s", 10: "tmpfile_s"}
 BIGT = 313360441200      # MAX_TIME_T_STR of the library (documented limit of the time functions)
 
 
@@ -57,7 +57,7 @@ def execute(states, workdir, flavours=("slack", "noslack")):
                 pos += len(got)
                 if pos < len(ch):      # the harness died in this call (e.g. abort inside libc): recorded as a fault
                     t = ch[pos].split()
-                    out.append(json.dumps(dict(id=int(t[0]), fn=int(t[1]), dmax=int(t[2]), dnull=int(t[3]), pre=int(t[4]), args=[int(x) for x in t[5:]], post=[], ref=[], refn=-1,
+                    out.append(json.dumps(dict(id=int(t[0]), fn=int(t[1]), dmax=int(t[2]), dnull=int(t[3]), pre=int(t[4]), args=[int(x) for x in t[5:]], post=[], ref=[], refn=-1, sp=-1, referr=-1,
                                                rc=-9999, len=-1, same=-1, tyear=0, h=[], hn=0, hk="", frame_ok=True, fault="abort")))
                     pos += 1
             return ['{"slack":%d,' % (1 if fl == "slack" else 0) + ln[1:] for ln in out]
